@@ -49,6 +49,11 @@ VF_UNS(X)
   VF_E T ilog2_##T(T x) { return etl::ilog2(x); } \
   VF_E T ipow_##T(T b, T e) { return etl::ipow(b, e); } \
   VF_E T ipow2_##T(T e) { return etl::ipow<T(2)>(e); } \
+  VF_E T ipow0_##T(T e) { return etl::ipow<T(0)>(e); } \
+  VF_E T ipow1_##T(T e) { return etl::ipow<T(1)>(e); } \
+  VF_E T ipow3_##T(T e) { return etl::ipow<T(3)>(e); } \
+  VF_E T ipow4_##T(T e) { return etl::ipow<T(4)>(e); } \
+  VF_E T ipow10_##T(T e) { return etl::ipow<T(10)>(e); } \
   VF_E void idiv_##T(T x, T y, T* q, T* r) { auto res = etl::idiv(x, y); *q = res.quot; *r = res.rem; }
 VF_UNS(X)
 VF_SGN(X)
